@@ -11,7 +11,8 @@ SPEC = {
             "(before every Z3 call and at every queue pop, from a private PRNG), a different working directory and a larger "
             "environment; the machine is loaded by the other shards. Each child prints the sequence of str(solve()) / terminal "
             "exception (up to 8 calls) and a fingerprint of random.getstate() after every call. Judged: sequences identical. "
-            "Pairs in which a twin saw a Z3 'unknown', hit the budget or the watchdog are inconclusive. distinct = distinct "
+            "Pairs in which a twin saw a Z3 'unknown' (counted at z3.Solver.check), a TimeoutError (none is configured: the "
+            "nested unsat check's wall-clock limit), hit the budget or the watchdog are inconclusive. distinct = distinct "
             "(family, settings, seed, solution sequence)",
     "minimum": {"quick": {"pairs_judged": 20, "pairs_with_3_solutions": 12, "perturbed_delays": 250},
                 "thorough": {"pairs_judged": 340, "pairs_with_3_solutions": 240}},
@@ -66,6 +67,11 @@ def run(ctx):
                 continue
             if any(o[0] in ("budget", "ctor-exc") for o in a["out"] + b["out"]):
                 ctx.inconclusive("budget-or-constructor")
+                continue
+            if any(o[0] == "timeout" for o in a["out"] + b["out"]):
+                # no timeout is configured for these solvers: a TimeoutError can only be the 2-second wall-clock limit of the
+                # nested unsat-support check escaping (known finding C02:unsat-support:nested-check-timeout-...), i.e. load
+                ctx.inconclusive("wall-clock-limit-inside-isla (nested unsat check)")
                 continue
             ctx.count("perturbed_delays", b["stats"]["delays"])
             sa, sb = [o[:2] for o in a["out"]], [o[:2] for o in b["out"]]
